@@ -377,5 +377,11 @@ def run(ctx: core.Ctx) -> int:
                            f"evaluated at the prior state")
     if not nupc:
         ctx.error(f"{tpls}: generated sensor_model update return not found in the witness")
+    from . import c13 as _c13nv
+    _c13nv.named_arrays(ctx, ("cov",))
+    # no module-level / class-level mutable state shared between filters: one filter's construction or update must not reach another's (shared with C01)
+    from . import c15 as _c15pp
+    ctx.rule("PY-PURE", "no module-level / class-level mutable state shared between filters (shared with C01)")
+    _c15pp.gen_pure(ctx, {"python": "py/formak/python.py", "common": "py/formak/common.py"}, rule="PY-PURE", floor=40)
     return core.finish(ctx, explanation="dataflow queries on the validity gate + E3 congruence form of the prediction covariance "
                                         "(structural, necessary clauses only)", **META)
